@@ -18,7 +18,7 @@ go test -vet=off -count=1 -p 8 $pk ./core/ > /tmp/store_seed_tests_$N.log 2>&1
 if grep -q '^FAIL\|^--- FAIL' /tmp/store_seed_tests_$N.log; then echo "EXISTING TESTS FAIL WITH PATCH: $N"; tail -20 /tmp/store_seed_tests_$N.log; exit 1; fi
 grep '^ok' /tmp/store_seed_tests_$N.log
 mv /tmp/SEED-$N SEED
-d=/verif/seeded/$N; mkdir -p $d; cp SEED/* $d/; rm -f $d/*.log
+d=/verif/seeded/$N; mkdir -p $d; cp -r SEED/* $d/; rm -f $d/*.log
 python3 - $d $N <<'PY'
 import json,sys,re
 d,n=sys.argv[1],sys.argv[2]
